@@ -346,6 +346,9 @@ class SBytes(Sym):
             rel = zsub(kz if not isinstance(k, int) else k, o)
             if isinstance(rel, int) and isinstance(s, (LitSeg, CellSeg)) and not 0 <= rel < s.length():
                 continue  # concrete index outside this concrete-length segment: the guard below would be false
+            if isinstance(s, DefView) and isinstance(rel, int) and isinstance(s.rel, int) \
+                    and not 0 <= s.rel + rel < s.under.length():
+                continue
             res = z3.If(kz < zint(end), _seg_at(s, rel), res)
         return z3.simplify(res)
 
